@@ -206,6 +206,18 @@ def check_one(mtj, none, fmt, opts, order=None):
                 bad('skipdisco', 'discontinuous tree with brackets_skipdisco: error %r, output %r' % (err, text))
         elif not isinstance(err, ValueError):
             bad('disco-not-refused', 'discontinuous tree was not refused with ValueError (error %r, output %r)' % (err, text[:80]))
+        # a tree for which nothing was written is still the user's tree: the usual fallback (write the refused
+        # ones in another format) must show the original tokens
+        from ..bridge import canon as _canon
+        if not out and _canon(t) != _canon(build_variant(mt, none, order)):
+            fb = io.StringIO()
+            try:
+                treeoutput.export(t, fb, export_four=True)
+                shown = [(x['word'], x['pos']) for x in codecs.decode_export(fb.getvalue(), version=4)[0].toks]
+            except Exception as e:
+                shown = '%s: %s' % (type(e).__name__, e)
+            bad('refused-but-changed', 'the bracket writer refused / skipped the discontinuous tree but changed it in place; '
+                'written in export format afterwards it shows %r' % (shown,))
         return out
     if err is not None:
         bad('exception', '%s: %s' % (type(err).__name__, err))
@@ -309,3 +321,28 @@ def run_chunk(chunk):
                             res.violation(v['kind'], v['where'], v['case'], v['detail'], v['what'])
             res.sample({'tree': model.mt_str(mt.root, mt.toks), 'variant': name, 'formats': list(FORMAT_OPTS)})
     return res
+
+
+# --- non-initial states: the oracle of this property in every state of the live-state pool
+# (vt/livepool.py: BFS over live objects; vt/liveoracles.py: the oracles)
+from .. import liveoracles as _lo
+_plan0, _run_chunk0, _check_case0 = plan, run_chunk, check_case
+
+
+def plan(tier, seed):
+    p = _plan0(tier, seed)
+    p['chunks'] = list(p['chunks']) + _lo.plan_chunks(tier)
+    p['assumptions'] = list(p.get('assumptions', [])) + [_lo.assumption()]
+    return p
+
+
+def run_chunk(chunk):
+    if chunk.get('kind') == 'live':
+        return _lo.run_chunk(ID, chunk, Result())
+    return _run_chunk0(chunk)
+
+
+def check_case(case):
+    if isinstance(case, dict) and isinstance(case.get('live'), dict):
+        return _lo.replay(case)
+    return _check_case0(case)
